@@ -29,6 +29,7 @@ type Render struct {
 	Err     *string        `json:"err"` // hex of err.Error(), null if nil
 	ErrIs   []string       `json:"err_is,omitempty"`
 	Missing bool           `json:"missing,omitempty"`
+	Unstable string        `json:"unstable,omitempty"` // set when repeated renderings differ
 }
 
 type Case struct {
@@ -71,7 +72,25 @@ var sentinels = map[string]error{
 	"ErrInsertConflictConstraintAndTarget": builder.ErrInsertConflictConstraintAndTarget,
 }
 
-func render(w builder.SQLWriter, v, p bool, named map[string]int) (r Render) {
+var repeat = 3
+
+// render renders w `repeat` times (fresh QueryBuilder each time, so Go's map iteration order
+// varies) and reports any difference between the repetitions.
+func render(w builder.SQLWriter, v, p bool, named map[string]int) Render {
+	r := render1(w, v, p, named)
+	for i := 1; i < repeat; i++ {
+		r2 := render1(w, v, p, named)
+		a, _ := json.Marshal(r)
+		b, _ := json.Marshal(r2)
+		if string(a) != string(b) {
+			r.Unstable = string(b)
+			break
+		}
+	}
+	return r
+}
+
+func render1(w builder.SQLWriter, v, p bool, named map[string]int) (r Render) {
 	r.V, r.P, r.Named = v, p, named
 	defer func() {
 		if e := recover(); e != nil {
@@ -104,6 +123,10 @@ func render(w builder.SQLWriter, v, p bool, named map[string]int) (r Render) {
 			r.Missing = true
 		}
 		h := hex.EncodeToString([]byte(msg))
+		if r.Missing {
+			// which of several missing names is reported depends on Go's map order; the class does not
+			h = hex.EncodeToString([]byte("missing named argument"))
+		}
 		r.Err = &h
 		for name, s := range sentinels {
 			if errors.Is(err, s) {
@@ -137,6 +160,9 @@ func main() {
 	depth := flag.Int("depth", 5, "maximum nesting depth")
 	hostile := flag.Float64("hostile", 0.03, "probability of a hostile name")
 	out := flag.String("out", "", "output file (default stdout)")
+	flag.IntVar(&repeat, "repeat", 3, "number of times every rendering is repeated")
+	binds := flag.Float64("binds", 0, "if > 0, boost Bind / Arg producers (share of expression leaves)")
+	boost := flag.String("boost", "", "comma separated producer=factor weight multipliers")
 	flag.Parse()
 
 	w := os.Stdout
@@ -151,6 +177,18 @@ func main() {
 	enc := json.NewEncoder(w)
 	g := gen.New(*seed, pool)
 	g.Hostile = *hostile
+	bm := map[string]float64{}
+	if *binds > 0 {
+		bm["qrb.Bind"], bm["qrb.Arg"], bm["qrb.Args"] = 60**binds, 40**binds, 10**binds
+	}
+	for _, kv := range strings.Split(*boost, ",") {
+		if i := strings.IndexByte(kv, '='); i > 0 {
+			var f float64
+			fmt.Sscanf(kv[i+1:], "%g", &f)
+			bm[kv[:i]] = f
+		}
+	}
+	g.Boost(bm)
 	d := &dump.Dumper{AnyID: anyID}
 
 	var targets []reflect.Type
